@@ -16,7 +16,7 @@ ANCHORS = ['phylib.io.array:chunk_bounds', 'phylib.io.array:data_chunk', 'phylib
            'phylib.io.array:_excerpt_step', 'phylib.io.array:get_excerpts',
            'phylib.io.traces:_get_chunk_bounds', 'phylib.io.traces:BaseEphysReader.iter_chunks',
            'phylib.io.traces:MtscompEphysReader.iter_chunks']
-RULE = ('EVERY (length n, chunk size, overlap < chunk) with n <= N, chunk <= 16: the tuples yielded by '
+RULE = ('EVERY (length n, chunk size, overlap < chunk) with n <= N, chunk <= 16 (thorough: chunk <= N): the tuples yielded by '
         'chunk_bounds are replayed on arange(n) through data_chunk (kept parts must concatenate to the '
         'data, each kept part inside its chunk, chunk length <= chunk size); EVERY (n, n_excerpts 2..6, '
         'size 1..10) for excerpts and n_excerpts 0..6 for get_excerpts; EVERY list of <= 4 file sizes '
@@ -30,7 +30,7 @@ EXHAUSTIVE = {'quick': True, 'thorough': True}
 EXHAUSTIVE_SCOPE = {'quick': 'n <= 25 (see rule)', 'thorough': 'n <= 40 (see rule)'}
 FLOORS = {'quick': {'evaluations': 20000, 'distinct_nontrivial': 2000,
                     'monitors': {'M2._get_chunk_bounds.checked': 1000, 'M1.checked': 1000}},
-          'thorough': {'evaluations': 50000, 'distinct_nontrivial': 5000,
+          'thorough': {'evaluations': 45000, 'distinct_nontrivial': 5000,
                        'monitors': {'M2._get_chunk_bounds.checked': 1000, 'M1.checked': 1000}}}
 NSHARDS = 16
 
@@ -43,15 +43,16 @@ def plan(tier, seed):
 def run_shard(desc, ctx):
     N, sh, ns = desc['N'], desc['shard'], desc['n']
     idx = 0
+    CS = 17 if desc['tier'] == 'quick' else N + 1
     for n in range(1, N + 1):
-        for cs in range(1, 17):
+        for cs in range(1, CS):
             for ov in range(0, cs):
                 idx += 1
                 if idx % ns == sh:
                     run_case({'kind': 'chunk_bounds', 'n': n, 'chunk': cs, 'overlap': ov}, ctx)
     for n in range(0, N + 1):
-        for k in range(0, 7):
-            for size in range(1, 11):
+        for k in range(0, 7 if desc['tier'] == 'quick' else 10):
+            for size in range(1, 11 if desc['tier'] == 'quick' else 21):
                 idx += 1
                 if idx % ns == sh:
                     run_case({'kind': 'excerpts', 'n': n, 'k': k, 'size': size}, ctx)
